@@ -46,6 +46,7 @@ def expected_params(case, w):
         g2 = {k: v for k, v in got.items() if k != "_meta"}
         w2 = dict(want or {})
         wmeta = dict(w2.pop("_meta", {}) or {})
+        wmeta.pop("progressToken", None)  # a stale token in the caller's dict is replaced
         return g2 == w2 and meta == wmeta
     return got == want or (want is None and got is None)
 
